@@ -25,7 +25,8 @@ kind_f = z3.Function('kind', State, S, I)
 sticky_f = z3.Function('sticky', State, S, B)
 ismount_f = z3.Function('is_mount', State, S, B)
 filetext_f = z3.Function('file_text', State, S, S)
-listdir_f = z3.Function('listdir', State, S, z3.SeqSort(S))
+listdir_len_f = z3.Function('listdir_len', State, S, I)
+listdir_at_f = z3.Function('listdir_at', State, S, I, S)
 access_f = z3.Function('access_ok', State, S, B)
 
 
@@ -98,6 +99,8 @@ class FsState(object):
         ev.idx = len(self.events)
         self.events.append(ev)
         self.ctx.events.append(('fs', ev))
+        for h in self.ctx.ghost.get('event_hooks', ()):
+            h(ev)
         return ev
 
     # observations with their axioms ---------------------------------
@@ -260,10 +263,14 @@ def m_listdir(I_, a, k):
         raise PyExc(os_error(I_, 'listdir', a[0]))
     if not fs.fault_free and ctx.choose(2, 'listdir-fails') == 1:
         raise PyExc(os_error(I_, 'listdir', a[0]))
-    seq = listdir_f(fs.sigma, p)
+    sg = fs.sigma
     ctx.used_axioms.add("os.listdir: names contain no '/', are not '', '.', "
                         "'..' (instantiated at accessed indices)")
-    return SymSeq(seq, origin=('listdir', fs.sigma, p))
+    n = listdir_len_f(sg, p)
+    ctx.assume(n >= 0)
+    return SymSeq(n, lambda i, sg=sg, p=p: listdir_at_f(
+        sg, p, i if z3.is_expr(i) else z3.IntVal(i)), ('listdir', sg, p),
+        origin=('listdir', sg, p))
 
 
 def listdir_element_axioms(ctx, x):
@@ -543,7 +550,7 @@ def register(lib):
     r['os.environ'] = B_('os.environ', None)   # replaced per path, see below
     r['sys.stdout'] = StreamV('stdout')
     r['sys.stderr'] = StreamV('stderr')
-    r['sys.argv'] = lib_opaque('sys.argv')
+    r['sys.argv'] = ['prog']
     r['sys.exit'] = B_('sys.exit', _sys_exit)
 
 
